@@ -263,7 +263,7 @@ pub fn run(ctx: &Ctx) {
     ctx.assume("values with |x*w| finite and normal, as the constructor's documented domain (finite x, finite w >= 0)");
     ctx.run_regressions(&[&C15]);
     let t = ctx.tier;
-    ctx.run_random(&C15, t.pick(400_000, 4_000_000), move || strategy(t));
+    ctx.run_random(&C15, t.pick(400_000, 1_200_000), move || strategy(t));
     ctx.require_class("shape", "fused_centroids", 0.3);
     ctx.require_class("shape", "weighted", 0.2);
     ctx.require_class("shape", "heavy_ties", 0.2);
